@@ -1,5 +1,6 @@
 \* several indexing workers: Deterministic must FAIL (this is the defect of the pinned tree)
 SPECIFICATION IBSpec
+CONSTANT MaxRebuilds = 2
 CONSTANTS NDocs = 4
  Threads = {1, 2, 3}
 INVARIANT Deterministic
